@@ -3,6 +3,11 @@ package pc16
 // Test plugins of the C16 check: one check plugin and one non-check ("work") plugin. Each has its own request type;
 // ValidateReq accepts exactly a value of that Go type whose Reject field is false. Execute succeeds immediately and
 // counts its invocations (per case: the instances are created fresh for every case).
+//
+// A second pair ("dcheck" / "dwork") takes a pointer-typed request *DReq that has a Defaults() method: Submit calls
+// Defaults() on every request that has one before the plugin is asked to validate it, so a request whose Mode was left
+// at its zero value reaches ValidateReq as Mode "auto". ValidateReq of these plugins accepts only a non-nil *DReq whose
+// Mode is "auto" or "manual" — a zero Mode is acceptable only once defaulted, any other Mode never.
 
 import (
 	"fmt"
@@ -15,9 +20,30 @@ import (
 )
 
 const (
-	checkPlugName = "verif/pc16.check"
-	workPlugName  = "verif/pc16.work"
+	checkPlugName  = "verif/pc16.check"
+	workPlugName   = "verif/pc16.work"
+	dCheckPlugName = "verif/pc16.dcheck"
+	dWorkPlugName  = "verif/pc16.dwork"
 )
+
+func isDPlug(name string) bool     { return name == dCheckPlugName || name == dWorkPlugName }
+func isCheckPlug(name string) bool { return name == checkPlugName || name == dCheckPlugName }
+
+// DReq is the request type of the dcheck / dwork plugins (always used through a pointer).
+type DReq struct {
+	Arg string
+	// Mode is "auto" or "manual"; the zero value means "auto" (filled in by Defaults).
+	Mode string
+}
+
+// Defaults is what Workstream.Submit calls on every request object that has it.
+func (r *DReq) Defaults() {
+	if r.Mode == "" {
+		r.Mode = "auto"
+	}
+}
+
+func validMode(m string) bool { return m == "auto" || m == "manual" }
 
 // ReqCheck is the request type of the check plugin.
 type ReqCheck struct {
@@ -45,6 +71,8 @@ type Resp struct {
 type plug struct {
 	name  string
 	check bool
+	// dflt: the plugin takes *DReq (request with Defaults()) instead of ReqCheck / ReqWork.
+	dflt  bool
 	execs *atomic.Int64
 }
 
@@ -60,6 +88,16 @@ func (p *plug) Execute(ctx context.Context, req any) (any, *plugins.Error) {
 }
 
 func (p *plug) ValidateReq(req any) error {
+	if p.dflt {
+		r, ok := req.(*DReq)
+		if !ok || r == nil {
+			return fmt.Errorf("request is %T, want a non-nil *pc16.DReq", req)
+		}
+		if !validMode(r.Mode) {
+			return fmt.Errorf("Mode %q is neither auto nor manual", r.Mode)
+		}
+		return nil
+	}
 	if p.check {
 		r, ok := req.(ReqCheck)
 		if !ok {
@@ -81,6 +119,9 @@ func (p *plug) ValidateReq(req any) error {
 }
 
 func (p *plug) Request() any {
+	if p.dflt {
+		return &DReq{}
+	}
 	if p.check {
 		return ReqCheck{}
 	}
